@@ -2922,7 +2922,8 @@ def node_kmer_iter_e2e(F, rep, rule="L-node-iter", quick=True):
 # SAME abstract operation for every k-mer type: one that is `extend_right` for nineteen types and something else for the twentieth is a
 # contradiction (whatever its author meant), and the tables that meet a call to it use the operation it was identified with.
 
-def kmer_helper_lemmas(F, rep, rule="L-helper"):
+def kmer_helper_lemmas(F, rep, rule="L-helper", only=None):
+    """`only`: report only on these helper paths (the identification itself is always stored in F.helper_summary)"""
     roots = [r for r in F.d.get("roots", []) if r.get("free")]
     by_fn = {}
     for r in roots:
@@ -2943,40 +2944,54 @@ def kmer_helper_lemmas(F, rep, rule="L-helper"):
             except Exception:
                 continue
             lt = [str(x) for x in body["locals"][:body["argc"] + 1]]
-            if not (body["argc"] == 2 and lt[0] == kty and lt[1] in (kty, "&" + kty) and lt[2] == "u8"):
+            with_dir = body["argc"] == 3 and lt[3].split("::")[-1] == "Dir"
+            if not (body["argc"] in (2, 3) and lt[0] == kty and lt[1] in (kty, "&" + kty) and lt[2] == "u8" and (body["argc"] == 2 or with_dir)):
                 shape = "other"
                 break
-            shape = "(K, u8) -> K"
+            shape = "(K, u8, Dir) -> K" if with_dir else "(K, u8) -> K"
 
-            def mk_args(lt=lt, kt=kt):
+            def mk_args(dirv=None, lt=lt, kt=kt):
                 k = kt.sym("s")
-                return [Ref(Cell(k, "k")) if lt[1].startswith("&") else k, base_arg()]
-            try:
-                got, _ = run_inst(F, key, mk_args())
-                gb = list(kt.storage_of(got).getbits())
-            except (Undecided, Unsupported, Diverge, KeyError, AttributeError) as e:
-                labels[kty] = None
-                detail[kty] = "could not be evaluated: %s" % e
-                continue
+                return [Ref(Cell(k, "k")) if lt[1].startswith("&") else k, base_arg()] + ([dir_val(dirv)] if dirv else [])
+
+            def bits_of(key_, args_):
+                r_, _ = run_inst(F, key_, args_)
+                b_ = list(kt.storage_of(r_).getbits())
+                if any(x is TOP for x in b_):
+                    raise Undecided("unknown result bits")
+                return b_
             lab = None
-            for meth in ("extend_right", "extend_left"):
-                try:
-                    ref, _ = run_inst(F, kt.key("Kmer", meth), [Ref(Cell(kt.sym("s"), "self")), base_arg()])
-                    rb = list(kt.storage_of(ref).getbits())
-                except (Undecided, Unsupported, Diverge, KeyError, AttributeError):
-                    continue
-                rep.evaluations += 1
-                if all(b is not TOP for b in gb) and gb == rb:
-                    lab = meth
-                    break
-                if meth == "extend_right":
-                    bad = next((i for i, (x, y) in enumerate(zip(gb, rb)) if x != y), None)
-                    detail[kty] = "bit %s of the result is %s, Kmer::extend_right gives %s" % (
-                        bad, bv.t_str(gb[bad]) if bad is not None and gb[bad] is not TOP else "?", bv.t_str(rb[bad]) if bad is not None else "?")
+            try:
+                if with_dir:
+                    ok = True
+                    for dv, meth in (("Left", "extend_left"), ("Right", "extend_right")):
+                        gb = bits_of(key, mk_args(dv))
+                        rb = bits_of(kt.key("Kmer", meth), [Ref(Cell(kt.sym("s"), "self")), base_arg()])
+                        rep.evaluations += 1
+                        if gb != rb:
+                            ok = False
+                            bad = next((i for i, (x, y) in enumerate(zip(gb, rb)) if x != y), None)
+                            detail[kty] = "with dir = %s, bit %s of the result is %s, Kmer::%s gives %s" % (dv, bad, bv.t_str(gb[bad]), meth, bv.t_str(rb[bad]))
+                            break
+                    lab = "extend" if ok else None
+                else:
+                    gb = bits_of(key, mk_args())
+                    for meth in ("extend_right", "extend_left"):
+                        rb = bits_of(kt.key("Kmer", meth), [Ref(Cell(kt.sym("s"), "self")), base_arg()])
+                        rep.evaluations += 1
+                        if gb == rb:
+                            lab = meth
+                            break
+                        if meth == "extend_right":
+                            bad = next((i for i, (x, y) in enumerate(zip(gb, rb)) if x != y), None)
+                            detail[kty] = "bit %s of the result is %s, Kmer::extend_right gives %s" % (bad, bv.t_str(gb[bad]), bv.t_str(rb[bad]))
+            except (Undecided, Unsupported, Diverge, KeyError, AttributeError) as e:
+                detail[kty] = "could not be evaluated: %s" % e
             labels[kty] = lab
-        if shape != "(K, u8) -> K" or not labels:
+        if shape not in ("(K, u8) -> K", "(K, u8, Dir) -> K") or not labels:
             continue
         fname = path.split("::")[-1]
+        quiet = only is not None and path not in only
         counts = {}
         for kty, lab in labels.items():
             counts[lab] = counts.get(lab, 0) + 1
@@ -2984,8 +2999,9 @@ def kmer_helper_lemmas(F, rep, rule="L-helper"):
         if len(named) == 1 and None not in counts:
             op = next(iter(named))
             summary[path] = op
-            rep.holds(rule, fname, "%s::<K> is Kmer::%s for all %d k-mer types (bit for bit on symbolic inputs)" % (path, op, len(labels)))
-        elif named:
+            if not quiet:
+                rep.holds(rule, fname, "%s::<K> is Kmer::%s for all %d k-mer types (bit for bit on symbolic inputs)" % (path, op, len(labels)))
+        elif named and not quiet:
             op = max(named, key=named.get)
             odd = sorted(k for k, l in labels.items() if l != op)
             rep.violated(rule, fname, "%s::<K> is Kmer::%s for %d k-mer type(s) but not for %s: %s — a generic helper must be the same operation on "
